@@ -11,7 +11,7 @@
    The only effect of the emitted body is `return false`, so a block is modelled by a
    boolean: false = the block returned false, true = it fell through (the method ends
    with `return true`).  After the header both operands are non-nil and every
-   dereference is guarded, so the body cannot panic; the header can (`*lp` of a nil **T). *)
+   dereference is guarded, so the body cannot panic; neither can the header since the nil **T fix (/repo f853f49, see header_x). *)
 From Coq Require Import List Bool String Ascii ZArith Arith Lia Floats.SpecFloat.
 From Verif Require Import Util Ints Strconv Floats Node Value Outcome.
 Import ListNotations.
@@ -174,7 +174,8 @@ Fixpoint deq (sh : bool) (o : option deqopts) (n : node) (par : option typ) (pat
 
 (* ---------- the method: header + body ---------- *)
 (* funcHeaderEqual: both type switches (l first), `if !leq || !req { return false }`,
-   both nil -> true, one nil -> false. *)
+   both nil -> true, one nil -> false.  A nil **T leaves lx nil (header_x), so a nil **T operand
+   equals a nil *T one. *)
 Definition deep_equal_with_options (n : node) (sh : bool) (la ra : arg) (o : option deqopts) : bool + pkind :=
   match header_x la with
   | inr k => inr k
